@@ -975,7 +975,7 @@ _COQ_SPEC = [{}]
 
 
 def _zlp(values):
-    return _zl(model_planes(_COQ_SPEC[0], values))
+    return _zl(values)          # raw plane values; their scale travels in MkAttrs (at_den)
 
 
 def coq_attrs(n):
@@ -986,9 +986,10 @@ def coq_attrs(n):
                                               "true" if m.get("disabled") else "false")
     else:
         ms = "None"
-    return "(MkAttrs %s %d %d %s %s %s %s)" % (
+    return "(MkAttrs %s %d %d %s %s %s %s %d)" % (
         "true" if n.get("vis", True) else "false", n["op"], 255 if n.get("fill") is None else n["fill"],
-        BM_COQ[n["bm"]], "true" if n.get("clip") else "false", ms, "true" if n.get("ko") else "false")
+        BM_COQ[n["bm"]], "true" if n.get("clip") else "false", ms, "true" if n.get("ko") else "false",
+        plane_max(_COQ_SPEC[0]))
 
 
 def coq_node(n):
